@@ -39,7 +39,7 @@ ASSUMPTIONS = [
 ]
 RULE = (
     "phase track: generated program in float32 or (a quarter of the runs) float64 (C16 vocabulary + fan-out, bool/int intermediates, several outputs, inputs with zeros) wrapped by "
-    "track_scales, then a history of 2-6 runs (forward-only | backward from a seeded subset of outputs; input values k) with Dynamo "
+    "track_scales, then a history of 2-6 runs (forward-only | backward from a seeded subset of outputs; input values k; another batch size in 30% of the runs) with Dynamo "
     "resets and, in 40% of runs, other programs tracked earlier in the same process; phase analyse: analyse_module (recurse_modules on|off) "
     "on the untransformed module vs an independent capture of the same fx graph, in half of the runs after other programs were analysed in the process; "
     "non-trivial = >= 2 runs of different kinds; distinct = (program op-kind sequence, run-kind sequence)"
